@@ -24,7 +24,7 @@ def ref_case(g, props, flagset="std", unconstrained=False, entry="", file_name="
         "h.go": refharness.harness_src(g, "p", props, unconstrained=unconstrained, entry=entry, file_name=file_name),
         "refg.go": "package p\n\nimport \"vh/ref\"\n\n" + gspec.go_ref(g),
     }
-    names = ["Harness_" + p for p in props]
+    names = ["Harness_" + p for p in props] + (["Harness_C16reuse"] if "C16" in props else [])
     return catcheck.Case(cid, [(rel, peg, FLAGSETS[flagset])], rel, files, names, tags=g.get("tags", []), peg=peg,
                          meta={"flagset": flagset})
 
@@ -95,7 +95,8 @@ def check_C01(tier, seed):
     # classes against the reference's membership: random merges over a-h (nested, overlapping, adjacent ranges) and
     # random classes over boundary runes
     ccases = []
-    for g in cores.random_class_merges(seed, 12 if tier == "quick" else 150) + cores.random_classes(seed, 12 if tier == "quick" else 150):
+    for g in (cores.random_class_merges(seed, 12 if tier == "quick" else 150) + cores.random_classes(seed, 12 if tier == "quick" else 150) +
+              cores.random_class_groups(seed, 8 if tier == "quick" else 100)):
         ccases.append(ref_case(g, ["C01"], flagset="std"))
         ccases.append(ref_case(g, ["C01"], flagset="bl"))
     lcases = [ref_case(g, ["C01"], flagset=fs) for g in cores.random_iliterals(seed, 24 if tier == "quick" else 120) for fs in ("std", "opt")]
@@ -189,6 +190,8 @@ def check_C15(tier, seed):
     else:
         N, tmo = 3, 900
     cat = cat + cores.random_classes(seed, 40 if tier == "quick" else 400)
+    # several classes in one grammar (shared Unicode class names, characters and ranges, different ^ and i)
+    cat = cat + cores.random_class_groups(seed, 24 if tier == "quick" else 300)
     cases = [rel_case(g, ["C15"], [], ["-optimize-basic-latin"]) for g in cat]
     # the table of a class that -optimize-grammar has cloned and merged: (X, X + -optimize-basic-latin) with X = -optimize-grammar
     og = ["-optimize-grammar"]
@@ -209,7 +212,7 @@ def check_C15(tier, seed):
 
 def run_ref_property(prop, tier, seed, cat, hprops, Nq, Nt, tq=60, tt=900, flagsets_q=("std",), flagsets_t=("std", "opt"),
                      unconstrained=False, bounds_extra=None, assumptions=(), file_name="", level="model_checking", quick_stride=1,
-                     post=None, max_steps=2_000_000, lemmas=None, rnd=None, lemma_n=(1, 2), extra=()):
+                     post=None, max_steps=2_000_000, lemmas=None, rnd=None, lemma_n=(1, 2), extra=(), hre=None):
     rep = Report(prop, tier, seed, level)
     w = Work()
     w.build_pigeon()
@@ -232,7 +235,7 @@ def run_ref_property(prop, tier, seed, cat, hprops, Nq, Nt, tq=60, tt=900, flags
         cases.append(ref_case(g, hprops, flagset=fs, unconstrained=unconstrained, file_name=file_name))
     twin = ref_case(cat[0], ["TWIN"], flagset=fss[0], suffix="_twin")
     catcheck.prepare(w, cases + [twin])
-    agg = catcheck.explore(w, rep, cases, prop, r"Harness_%s$" % hprops[0], N, tmo, "ref", seed=seed,
+    agg = catcheck.explore(w, rep, cases, prop, hre or (r"Harness_%s$" % hprops[0]), N, tmo, "ref", seed=seed,
                            validate_pkgs=6 if quick else 24, max_steps=max_steps)
     twin_check(w, rep, twin)
     if lemmas:
@@ -265,21 +268,21 @@ def check_C17(tier, seed):
 
 
 def check_C02(tier, seed):
-    return run_ref_property("C02", tier, seed, cores.context_catalogue() + cores.composites(), ["C02"], 4, 5, tq=120, lemmas=["Action", "Label", "And", "Not", "Star", "Plus", "Opt", "Choice", "Seq"], rnd=(16, 150, ("state",)))
+    return run_ref_property("C02", tier, seed, cores.context_catalogue() + cores.composites(), ["C02"], 4, 5, tq=120, lemmas=["Action", "Label", "And", "Not", "Star", "Plus", "Opt", "Choice", "Seq", "AndCode", "NotCode", "StateCode"], rnd=(16, 150, ("state",)))
 
 
 def check_C05(tier, seed):
-    return run_ref_property("C05", tier, seed, cores.state_catalogue(), ["C05"], 4, 5, flagsets_q=("std", "opt"), quick_stride=1, tq=120, tt=1800, lemmas=["Seq", "Choice", "And", "Not", "Action", "Star", "Opt"], rnd=(16, 200, ("state",)))
+    return run_ref_property("C05", tier, seed, cores.state_catalogue(), ["C05"], 4, 5, flagsets_q=("std", "opt"), quick_stride=1, tq=120, tt=1800, lemmas=["Seq", "Choice", "And", "Not", "Action", "Star", "Opt", "AndCode", "NotCode", "StateCode"], rnd=(16, 200, ("state",)))
 
 
 def check_C14(tier, seed):
-    return run_ref_property("C14", tier, seed, cores.throw_catalogue(), ["C14"], 4, 6, flagsets_q=("std", "opt"), tq=120, tt=1800, lemmas=["Recovery", "RecoveryTwice", "Throw"], rnd=(16, 200, ("throw",)))
+    return run_ref_property("C14", tier, seed, cores.throw_catalogue(), ["C14"], 4, 6, flagsets_q=("std", "opt"), tq=120, tt=1800, lemmas=["Recovery", "RecoveryTwice", "RecoveryNested", "Throw"], rnd=(16, 200, ("throw",)))
 
 
 def check_C11(tier, seed):
     return run_ref_property("C11", tier, seed, cores.fault_catalogue(), ["C11"], 3, 4, file_name="f%20x.txt", flagsets_q=("std",), tq=120, tt=1800,
                             bounds_extra={"fault_plan": "symbolic: per block slot, first two invocations in {none, errA, errB, panic}", "Recover": "symbolic"},
-                            rnd=(8, 80, ("fault",)), lemmas=["AddErr"], lemma_n=(2, 3))
+                            rnd=(8, 80, ("fault",)), lemmas=["AddErr"], lemma_n=(2, 3), extra=[(g, "lr") for g in cores.fault_lr_catalogue()])
 
 
 def check_C10(tier, seed):
@@ -359,7 +362,9 @@ def check_C16(tier, seed):
     lrs = [g for g in cores.lr_catalogue() if g["name"] in (("lr_direct", "lr_indirect") if tier == "quick" else ("lr_direct", "lr_two", "lr_nest", "lr_indirect", "lr_indirect2", "lr_postfix"))]
     return run_ref_property("C16", tier, seed, cores.budget_catalogue(), ["C16"], 2, 3, tq=120, tt=1800, extra=[(g, "lr") for g in lrs],
                             flagsets_q=("std",), flagsets_t=("std", "lr"), max_steps=300_000, rnd=(8, 80, ("throw", "state")),
-                            bounds_extra={"budget": "symbolic, 1..24 (1..12 for the non-terminating grammars)", "Memoize": "symbolic"})
+                            hre=r"Harness_C16(reuse)?$",
+                            bounds_extra={"budget": "symbolic, 1..24 (1..12 for the non-terminating grammars)", "Memoize": "symbolic",
+                                          "statistics_collector": "second harness: the Stats struct handed to Statistics already counts 0..40 expressions (symbolic), budget 1..16, option order symbolic"})
 
 
 def check_C06(tier, seed):
@@ -379,7 +384,7 @@ def check_C06(tier, seed):
     catcheck.prepare(w, cases + [twin])
     agg = catcheck.explore(w, rep, cases, "C06", r"Harness_C06$", N, tmo, "rel", seed=seed, validate_pkgs=6 if quick else 20)
     twin_check(w, rep, twin)
-    run_lemmas(w, rep, "C06", ["InOut"], 1, only_std=True)
+    run_lemmas(w, rep, "C06", ["InOut", "Memo"], 1, only_std=True)
     std_cov(rep, agg, cases, {"input_bytes_max": N, "random_grammars": "seeded sample (seed %d), see catalog/cores.py random_grammars" % seed, "options": "Memoize, Debug, Statistics symbolic booleans (8 combinations)"},
             "one state = one explored path (input class x option combination)", REL_FUNCS + ["getMemoized/setMemoized", "parseRuleMemoize", "incChoiceAltCnt"])
     rep.cov["disagreements_checked"] = agg["cex"]
@@ -392,7 +397,17 @@ def triage_overlay(rep, prop, ov, hname, arg, cx, case_id, extra=None, timeout=1
     model = cx.get("model") or {}
     msg = cx.get("msg", "")
     hang = msg.startswith("step limit")
-    nat = ov.native(hname, arg, model, timeout=10 if hang else timeout)
+    if hname.endswith("seq") and "built before in the same process" in msg:
+        # two processes: X after Y, and X alone; the digests of the generated text must agree
+        dig = {}
+        for mode in ("after", "alone"):
+            n1 = ov.native(hname, arg, model, timeout=timeout, env_extra={"VERIF_MODE": mode})
+            dig[mode] = [x for x in n1["notes"] if x.startswith("digest:")]
+        nat = n1
+        nat["notes"] = []
+        nat["fails"] = [msg + " [two processes: after=%s alone=%s]" % (dig["after"], dig["alone"])] if dig["after"] and dig["alone"] and dig["after"] != dig["alone"] else []
+    else:
+        nat = ov.native(hname, arg, model, timeout=10 if hang else timeout)
     doc = {"property": prop, "family": "overlay", "case": case_id, "harness": hname, "arg": arg, "model": model, "msg": msg,
            "input": catcheck.model_bytes(model), "tags": [], "native": {k: nat[k] for k in ("fails", "panic", "timeout", "notes")}}
     doc.update(extra or {})
@@ -414,8 +429,15 @@ def triage_overlay(rep, prop, ov, hname, arg, cx, case_id, extra=None, timeout=1
     return doc
 
 
-def overlay_explore(rep, prop, ov, hre, nmin, nmax, tmo, case_id, sample_every=50, max_triage=6, args=None, **kw):
+def overlay_explore(rep, prop, ov, hre, nmin, nmax, tmo, case_id, sample_every=50, max_triage=6, args=None, native_fail_is_violation=False, **kw):
     """Run an overlay harness; triage; cross-validate samples. Returns agg."""
+    try:
+        return _overlay_explore(rep, prop, ov, hre, nmin, nmax, tmo, case_id, sample_every, max_triage, args, native_fail_is_violation, **kw)
+    finally:
+        tick("overlay %s" % case_id)
+
+
+def _overlay_explore(rep, prop, ov, hre, nmin, nmax, tmo, case_id, sample_every=50, max_triage=6, args=None, native_fail_is_violation=False, **kw):
     agg = {"jobs": 0, "paths": 0, "completed": 0, "decisions": 0, "queries": 0, "solver_s": 0.0, "asserts": 0, "discharged": 0,
            "dropped": 0, "steps": 0, "cex": 0, "validated": 0, "validated_ok": 0, "engine_wall_s": 0.0, "externals": []}
     res = ov.engine(harness=hre, nmin=nmin, nmax=nmax, timeout_s=tmo, sample_every=sample_every, args=sorted(args) if args is not None else None, **kw)
@@ -470,6 +492,14 @@ def overlay_explore(rep, prop, ov, hre, nmin, nmax, tmo, case_id, sample_every=5
         else:
             for s, nat in zip(samples[:60], got):
                 agg["validated"] += 1
+                if native_fail_is_violation and nat["fails"] and not nat["panic"]:
+                    # the engine skips a part of the pipeline that the native run of the same harness includes
+                    # (declared stub): an assertion failing natively is a violation reproduced on the real code
+                    doc = {"property": prop, "family": "overlay", "case": case_id, "harness": s["harness"], "arg": s["arg"], "model": s["model"], "msg": nat["fails"][0],
+                           "input": catcheck.model_bytes(s["model"]), "tags": ["found-by-native-run"], "native": {k: nat[k] for k in ("fails", "panic", "timeout", "notes")}}
+                    if match_known(prop, doc) is None:
+                        rep.violation(save_replay(prop, doc), "%s n=%d: %s (native run of the harness; the engine run skips the static-code template expansion)" % (s["harness"], s["arg"], nat["fails"][0]))
+                    continue
                 if nat["fails"] or nat["panic"] or sorted(nat["notes"]) != sorted(s["notes"]):
                     rep.unconfirmed.append("%s n=%d model=%s: engine notes %s vs native fails=%s panic=%s notes=%s" % (
                         s["harness"], s["arg"], s["model"], s["notes"], nat["fails"], nat["panic"], nat["notes"]))
@@ -503,11 +533,11 @@ def check_C07(tier, seed):
     menu = 38
     if quick:
         rnd = random.Random(seed)
-        pick = sorted(set([0, 1, 4, 6, 8, 33, 35, 37] + rnd.sample(range(menu), 5)))
+        pick = sorted(set([0, 1, 4, 6, 8, 33, 35, 37] + rnd.sample(range(menu), 2)))
     else:
         pick = list(range(menu))
     agg_a = overlay_explore(rep, "C07", ov, "Harness_C07a$", min(pick), max(pick), 300 if quick else 1200, "c07a_family",
-                            sample_every=997, args=None if not quick else None, max_steps=2_000_000)
+                            sample_every=997, args=set(pick) if quick else None, max_steps=2_000_000)
     # (b) consequence at run time: accepted grammars never re-enter a rule at the same offset
     cyc = cores.cyclic_catalogue()
     cases_b = [ref_case(g, ["C07b"]) for g in cyc]
@@ -585,7 +615,7 @@ def check_C19(tier, seed):
     quick = tier == "quick"
     D = 1 if quick else 2
     gs = c19_grammars(quick, seed)
-    src = ["package main\n\n", "type c19Case struct {\n\tname, text string\n\tf symFlags\n}\n\nvar c19Cases = []c19Case{\n"]
+    src = ["package main\n\nimport \"fmt\"\n\n", "type c19Case struct {\n\tname, text string\n\tf symFlags\n}\n\nvar c19Cases = []c19Case{\n"]
     for name, text, fl in gs:
         fields = []
         for k in ("optGrammar", "optParser", "basicLatin", "leftRec"):
@@ -615,9 +645,59 @@ func Harness_C19(n int) {
 	symReach("end")
 }
 ''')
+    src.append('''
+// C19 (repeated builds inside one process): what is generated for grammar X
+// after another grammar Y has been built in the same process equals what a
+// process of its own generates for X (whatever a build leaves behind in
+// package-level state - caches keyed too coarsely, counters - must not reach
+// the next build). symFreshProcess puts the package-level variables back to
+// their initial values; the native confirmation runs the two halves in two
+// processes (symMode) and compares the digests.
+func c19Hash(s string) string {
+	h := uint32(2166136261)
+	for i := 0; i < len(s); i++ {
+		h = (h ^ uint32(s[i])) * 16777619
+	}
+	return fmt.Sprintf("%d:%x", len(s), h)
+}
+
+func Harness_C19seq(n int) {
+	x := c19Cases[n]
+	y := c19Cases[(n+1)%len(c19Cases)]
+	fy := x.f
+	fy.altEntry = y.f.altEntry
+	if y.f.leftRec {
+		fy.leftRec = true
+	}
+	mode := symMode()
+	var after, alone symGen
+	if mode != "alone" {
+		symGenerate([]byte(y.text), fy)
+		after = symGenerate([]byte(x.text), x.f)
+	}
+	symFreshProcess()
+	if mode != "after" {
+		alone = symGenerate([]byte(x.text), x.f)
+	}
+	if mode != "both" {
+		if mode == "after" {
+			symNote("digest:" + c19Hash(after.out))
+		} else {
+			symNote("digest:" + c19Hash(alone.out))
+		}
+		symReach("end")
+		return
+	}
+	symNote(x.name + " after " + y.name + " " + c19Hash(alone.out))
+	symAssert(alone.perr == nil && !alone.panicked && alone.berr == nil, "C19: catalogue grammar not generated")
+	symAssert(!after.panicked && after.berr == nil, "C19: a build fails after another build in the same process")
+	symAssert(alone.out == after.out, "C19: the output for a grammar depends on what was built before in the same process")
+	symReach("end")
+}
+''')
     src.append("const symOrderBound = %d\n" % D)
     ov = RepoOverlay(w, ".", "main", {"zz_verif_main.go": open(os.path.join(VERIF, "harness", "main_common.go")).read(),
-                                      "zz_verif_c19.go": "".join(src)}, ["Harness_C19"])
+                                      "zz_verif_c19.go": "".join(src)}, ["Harness_C19", "Harness_C19seq"])
     agg = {"jobs": 0, "paths": 0, "completed": 0, "decisions": 0, "queries": 0, "solver_s": 0.0, "asserts": 0, "discharged": 0,
            "dropped": 0, "steps": 0, "cex": 0, "validated": 0, "validated_ok": 0, "engine_wall_s": 0.0, "externals": []}
     res = ov.engine(harness="Harness_C19$", nmin=0, nmax=len(gs) - 1, timeout_s=240 if quick else 3000, sample_every=40, max_steps=20_000_000)
@@ -674,6 +754,13 @@ func Harness_C19(n int) {
             else:
                 rep.unconfirmed.append("%s: engine found an order-dependent output (%s, orders %s) but %d native runs of the tool gave one output" % (
                     name, cexs[0]["msg"], cexs[0]["model"], runs))
+    # repeated builds in one process: X, Y, X (one concrete path per pair in the engine, where the template expansion of the
+    # static code is skipped; the native run of the same harness includes it, and a native assertion failure is a
+    # reproduced violation of the property on the real code)
+    agg_s = overlay_explore(rep, "C19", ov, "Harness_C19seq$", 0, len(gs) - 1, 240 if quick else 900, "c19_seq", sample_every=1, max_triage=4, max_steps=60_000_000,
+                            native_fail_is_violation=True)
+    for k in ("jobs", "paths", "completed", "asserts", "discharged", "steps", "validated", "validated_ok"):
+        agg[k] += agg_s.get(k, 0)
     # cross-validation: the engine's canonical output must be what the native pipeline produces (checked through C20/selftest)
     std_cov(rep, agg, gs, {"range_instances_deviating_per_path": D, "grammars": len(gs),
                            "permutations": "all orders for maps with <= 3 keys; reversal, rotation and adjacent transpositions above"},
@@ -717,18 +804,19 @@ def check_C13(tier, seed):
     gs = c13_grammars(quick)
     maxlen = max(len(g.encode()) for g in gs)
     width = 1
-    extra = "package main\n\nvar c13Grammars = []string{\n%s}\n\nconst c13MaxLen = %d\nconst c13Width = %d\n" % (
-        "".join("\t%s,\n" % go_str_lit(g) for g in gs), maxlen, width)
+    extra = "package main\n\nvar c13Grammars = []string{\n%s}\n\nconst c13MaxLen = %d\nconst c13Width = %d\nconst c13MainFull = %s\n" % (
+        "".join("\t%s,\n" % go_str_lit(g) for g in gs), maxlen, width, "false" if quick else "true")
     ov = RepoOverlay(w, ".", "main", {"zz_verif_main.go": open(os.path.join(VERIF, "harness", "main_common.go")).read(),
                                       "zz_verif_c13.go": open(os.path.join(VERIF, "harness", "c13_main.go")).read(),
-                                      "zz_verif_c13data.go": extra}, ["Harness_C13text", "Harness_C13mut", "Harness_C13chain", "Harness_C13code"])
+                                      "zz_verif_c13m.go": open(os.path.join(VERIF, "harness", "c13main_main.go")).read(),
+                                      "zz_verif_c13data.go": extra}, ["Harness_C13text", "Harness_C13mut", "Harness_C13chain", "Harness_C13code", "Harness_C13main"])
     N = 3 if quick else 4
     B = 16
-    agg1 = overlay_explore(rep, "C13", ov, "Harness_C13text$", 0, (N + 1) * B - 1, 240 if quick else 3000, "c13_text", sample_every=97, max_triage=4)
+    agg1 = overlay_explore(rep, "C13", ov, "Harness_C13text$", 0, (N + 1) * B - 1, 400 if quick else 3000, "c13_text", sample_every=97, max_triage=4)
     # mutations: every position in thorough, a seeded stride in quick
     rnd = random.Random(seed)
     if quick:
-        stride, off = 4, rnd.randrange(4)
+        stride, off = 6, rnd.randrange(6)
         def positions(g):
             n = len(g.encode())
             if "&{return true,nil}'a'" in g:
@@ -738,17 +826,21 @@ def check_C13(tier, seed):
             if g.startswith("A<-A 'x'/B"):
                 # shape grammar (two rules, each directly and both mutually left-recursive: no leader candidate)
                 return [g.index("'x'") + 1, g.index("'q'") + 1]
-            return range(off % 2, n, 2) if n <= 30 else range(off, n, stride)
+            return range(off % 3, n, 3) if n <= 30 else range(off, n, stride)
         args = [gi * maxlen + p for gi, g in enumerate(gs) for p in positions(g)]
     else:
         args = [gi * maxlen + p for gi, g in enumerate(gs) for p in range(0, len(g.encode()) - width + 1, 1 if gi < 4 else 3)]
-    agg2 = overlay_explore(rep, "C13", ov, "Harness_C13mut$", 0, 0, 120 if quick else 900, "c13_mut", sample_every=197, max_triage=4, args=set(args))
+    agg2 = overlay_explore(rep, "C13", ov, "Harness_C13mut$", 0, 0, 300 if quick else 900, "c13_mut", sample_every=197, max_triage=4, args=set(args))
     # reference chains of depth 3, 8 and 34 (the last one exhibits finding F18: 2^d visits in the nullable analysis)
     agg3 = overlay_explore(rep, "C13", ov, "Harness_C13chain$", 0, 0, 120, "c13_chain", sample_every=1, max_triage=2, args={3, 8, 34}, max_steps=30_000_000)
     # code-block bodies of <= 2 (3) symbolic bytes in four places
     code_args = [4 * f + k for f in range(4) for k in range(0, (2 if quick else 3) + 1)]
     agg4 = overlay_explore(rep, "C13", ov, "Harness_C13code$", 0, 0, 120 if quick else 900, "c13_code", sample_every=97, max_triage=4, args=set(code_args))
-    agg = merge_agg(merge_agg(merge_agg(agg1, agg2 or {}), agg3 or {}), agg4 or {})
+    # the real main(): flags, order of the stages, exit status per failing stage, what is written (6 grammars x 8 concrete flag triples,
+    # the other flags, the entry point list and one appended byte symbolic)
+    agg5 = overlay_explore(rep, "C13", ov, "Harness_C13main$", 0, 0, 240 if quick else 900, "c13_main", sample_every=29 if quick else 199, max_triage=4,
+                           args=set(c * 8 + b for c in range(6) for b in ((0, 3, 5, 6) if quick else range(8))), max_steps=20_000_000)
+    agg = merge_agg(merge_agg(merge_agg(merge_agg(agg1, agg2 or {}), agg3 or {}), agg4 or {}), agg5 or {})
     agg.pop("_samples", None) if False else None
     # cross-check of the harness staging against the real binary: exit status and no panic trace
     nat_ok = 0
@@ -943,6 +1035,8 @@ def check_C20(tier, seed):
         if quick and len(text) > 700:
             continue
         rt.append((g["name"], text))
+    # the same texts with CRLF line ends (the initializer and every multi-line code block then contain carriage returns)
+    rt += [(name + "_crlf", text.replace("\n", "\r\n")) for name, text in rt[: (4 if quick else 40)]]
     skel = [g for g in cores.composites() + cores.context_catalogue()[:4] if in_bootstrap_subset(g)][: (3 if quick else 8)]
     lay, maxseps = [], 1
     for g in skel:
@@ -979,7 +1073,7 @@ def check_C20(tier, seed):
     agg = merge_agg(agg, overlay_explore(rep, "C20", ov, "Harness_C20escape$", 0, 0, tmo, "c20_escape", sample_every=23, max_triage=3, args=set(esc_args)))
     agg = merge_agg(agg, overlay_explore(rep, "C20", ov, "Harness_C20class$", 0, 3 if quick else 4, tmo, "c20_class", sample_every=23, max_triage=3))
     agg = merge_agg(agg, overlay_explore(rep, "C20", ov, "Harness_C20op$", 0, 0, tmo, "c20_op", sample_every=3, max_triage=3))
-    free_args = [8 * sk + k for sk in range(6) for k in range(1, (2 if quick else 3) + 1)] + [8 * sk + (3 if quick else 4) for sk in (1, 2)]
+    free_args = [8 * sk + k for sk in range(8) for k in range(1, (2 if quick else 3) + 1)] + [8 * sk + (3 if quick else 4) for sk in (1, 2)]
     agg = merge_agg(agg, overlay_explore(rep, "C20", ov, "Harness_C20free$", 0, 0, max(tmo, 300), "c20_free", sample_every=97, max_triage=3, args=set(free_args)))
     agg.pop("_samples", None)
     std_cov(rep, agg, rt, {"catalogue_texts": len(rt), "layout_holes": "%d symbolic layout bytes at %d token boundaries" % (hole_len, len(lay_args)),
@@ -1231,14 +1325,20 @@ def check_C18(tier, seed):
         nat["timeout"] = timed_out
         return nat
     for c_ in cases:
-        c_.harness_names = ["Harness_C18", "Harness_C18native", "Harness_C18abort", "Harness_C18order"]
+        c_.harness_names = ["Harness_C18", "Harness_C18native", "Harness_C18abort", "Harness_C18order", "Harness_C18reader"]
     catcheck.prepare(w, cases)
-    agg = catcheck.explore(w, rep, cases, "C18", r"Harness_C18$", N, tmo, "ref", seed=seed, validate_pkgs=5 if quick else 16, confirm=confirm)
+    # (quick: every second case under the full monitor with a nondeterministic pool - the dearest family)
+    agg = catcheck.explore(w, rep, cases[::2] if quick else cases, "C18", r"Harness_C18$", N, tmo, "ref", seed=seed, validate_pkgs=5 if quick else 16, confirm=confirm)
     # aborted middle call (symbolic expression budget): grammars with rules, labels, state and recovery operators
     ab = [c_ for c_ in cases if c_.id.startswith(("tr_", "c_", "st_inc_rule", "st_inc_first", "lr_", "rnd"))]
     if quick:
         ab = [c_ for c_ in ab if c_.id.endswith(("_std", "_lr"))][:3] + [c_ for c_ in ab if c_.id.endswith("_opt")][:2] + [c_ for c_ in ab if c_.id.startswith("rnd")][:2]
     agg = merge_agg(agg, catcheck.explore(w, rep, ab, "C18", r"Harness_C18abort$", N, tmo, "ref", seed=seed, validate_pkgs=3 if quick else 8, confirm=confirm))
+    # the same calls through ParseReader (action-less values are slices of the input: a buffer shared between calls shows in them)
+    rd = [c_ for c_ in cases if c_.id.startswith(("c_", "cx_", "tr_", "rnd"))]
+    if quick:
+        rd = rd[:3] + [c_ for c_ in rd if c_.id.startswith("rnd")][:2]
+    agg = merge_agg(agg, catcheck.explore(w, rep, rd, "C18", r"Harness_C18reader$", N, tmo, "ref", seed=seed, validate_pkgs=2 if quick else 6, confirm=confirm))
     # order independence against a fresh process (first-call-wins caches): all cases, no monitor
     agg = merge_agg(agg, catcheck.explore(w, rep, cases, "C18", r"Harness_C18order$", N, tmo, "ref", seed=seed, validate_pkgs=3 if quick else 8, confirm=confirm))
     rep.cov.update({
@@ -1311,22 +1411,38 @@ func Harness_ST(n int) {
 
 
 LEM_STATE = {
-    "STATE_INIT": 'p.cur.state["k"] = 5',
-    "STATE_SNAP": 's.state = map[string]any{}\n\tfor k, v := range p.cur.state {\n\t\ts.state[k] = v\n\t}',
-    "KID_MUT": 'if symChoose("kid_mut", 2) == 1 {\n\t\tval := 100 + i\n\t\titems = append([]any{&stateCodeExpr{run: func(q *parser) error {\n\t\t\tq.cur.state["k"] = val\n\t\t\tq.cur.state["new"] = 1\n\t\t\treturn nil\n\t\t}}}, items...)\n\t}',
+    # the store of the pre-state holds a plain value and a value implementing Cloner (mutated in place by the blocks below)
+    "STATE_INIT": 'p.cur.state["k"] = 5\n\tp.cur.state["b"] = lemBox{p: new(int)}',
+    "STATE_SNAP": 's.state = map[string]any{}\n\tfor k, v := range p.cur.state {\n\t\tif b, isBox := v.(lemBox); isBox {\n\t\t\ts.state[k] = *b.p\n\t\t} else {\n\t\t\ts.state[k] = v\n\t\t}\n\t}',
+    "KID_MUT": 'if symChoose("kid_mut", 2) == 1 {\n\t\tval := 100 + i\n\t\titems = append([]any{&stateCodeExpr{run: func(q *parser) error {\n\t\t\tq.cur.state["k"] = val\n\t\t\tq.cur.state["new"] = 1\n\t\t\t*q.cur.state["b"].(lemBox).p += 10\n\t\t\treturn nil\n\t\t}}}, items...)\n\t}',
     "STATE_EQ_ALWAYS": 'symAssert(lemStateEq(p, e), "predicate: the state store is not rolled back after a predicate")',
     "STATE_EQ": 'symAssert(lemStateEq(p, e), what+": a failing expression left the state store changed")',
-    "ACTION_MUT": 'q.cur.state["k"] = 77\n\t\tq.cur.state["tmp"] = 1',
-    "ACTION_STATE": '_, hasTmp := p.cur.state["tmp"]\n\t\tsymAssert(!hasTmp && !symEqual(p.cur.state["k"], 77), "action: changes made to the state inside an action block were kept")',
+    "ACTION_MUT": 'q.cur.state["k"] = 77\n\t\tq.cur.state["tmp"] = 1\n\t\t*q.cur.state["b"].(lemBox).p += 1',
+    "ACTION_STATE": '_, hasTmp := p.cur.state["tmp"]\n\t\tsymAssert(!hasTmp && !symEqual(p.cur.state["k"], 77) && *p.cur.state["b"].(lemBox).p%10 == 0, "action: changes made to the state inside an action block were kept (assignment or in-place change of a Cloner value)")',
+    "BLOCK_STATE": 'symAssert(lemStateEq(p, e), "code predicate: changes made to the state inside a predicate block were kept (assignment or in-place change of a Cloner value)")',
+    "STATEBLOCK_KEPT": '_, hasTmp := p.cur.state["tmp"]\n\tsymAssert(hasTmp && symEqual(p.cur.state["k"], 77) && *p.cur.state["b"].(lemBox).p == e.state["b"].(int)+1, "state block: its changes to the store are not kept")',
 }
 LEM_STATE_HELPER = '''
+type lemBox struct{ p *int }
+
+func (b lemBox) Clone() any {
+	v := *b.p
+	return lemBox{p: &v}
+}
+
 func lemStateEq(p *parser, e lemSnapT) bool {
 	if len(p.cur.state) != len(e.state) {
 		return false
 	}
 	for k, v := range e.state {
 		w, ok := p.cur.state[k]
-		if !ok || !symEqual(v, w) {
+		if !ok {
+			return false
+		}
+		if b, isBox := w.(lemBox); isBox {
+			w = *b.p
+		}
+		if !symEqual(v, w) {
 			return false
 		}
 	}
@@ -1342,10 +1458,13 @@ def lemma_case(name, flags, with_state):
     rel = "lem_%s/p" % name
     src = open(os.path.join(VERIF, "harness", "lemmas_parser.go.tmpl")).read().replace("PKGPATH", "vh/" + rel)
     # order matters: STATE_EQ_ALWAYS before STATE_EQ
-    for key in ("STATE_EQ_ALWAYS", "STATE_INIT", "STATE_SNAP", "KID_MUT", "STATE_EQ", "ACTION_MUT", "ACTION_STATE"):
+    for key in ("STATEBLOCK_KEPT", "BLOCK_STATE", "STATE_EQ_ALWAYS", "STATE_INIT", "STATE_SNAP", "KID_MUT", "STATE_EQ", "ACTION_MUT", "ACTION_STATE"):
         src = src.replace(key, LEM_STATE[key] if with_state else "")
     if with_state:
         src += LEM_STATE_HELPER
+        src = src.replace("LEM_STATE_BEGIN\n", "").replace("LEM_STATE_END\n", "")
+    else:
+        src = re.sub(r"LEM_STATE_BEGIN.*?LEM_STATE_END\n", "", src, flags=re.S)
     # the tracing helpers only exist in parsers generated without -optimize-parser
     if "-optimize-parser" in flags:
         src = re.sub(r"LEM_DEBUG_BEGIN.*?LEM_DEBUG_END\n", "", src, flags=re.S)
